@@ -101,6 +101,7 @@ type recSink struct {
 	mu      sync.Mutex // a concurrent Writer writes from its ordering goroutine
 	buf     bytes.Buffer
 	calls   []int
+	fails   int // sink calls that returned the injected failure
 	failAt  int
 	once    bool // transient fault: only the failAt-th call fails
 	atFail  int  // bytes in the sink when the fault happened (-1: no fault yet)
@@ -115,6 +116,12 @@ func (s *recSink) snapshot() (n, calls int) {
 	s.mu.Lock()
 	defer s.mu.Unlock()
 	return s.buf.Len(), len(s.calls)
+}
+
+func (s *recSink) failed() int {
+	s.mu.Lock()
+	defer s.mu.Unlock()
+	return s.fails
 }
 
 func (s *recSink) callSizes() []int {
@@ -140,6 +147,7 @@ func (s *recSink) Write(p []byte) (int, error) {
 		if len(s.calls) == s.failAt {
 			s.atFail = s.buf.Len()
 		}
+		s.fails++
 		return 0, errInjected
 	}
 	if s.limit > 0 && s.buf.Len()+len(p) > s.limit {
@@ -226,6 +234,7 @@ type callRes struct {
 	Err   string `json:"err"`  // error class
 	Sink  int    `json:"sink"` // sink length after the call
 	St    string `json:"st"`   // lifecycle state after the call (verif accessor)
+	Fails int    `json:"fails"` // sink calls that have failed so far (cumulative)
 	Calls int    `json:"calls"`
 	// Flush on a sequential Writer: decoded length of the sink so far, and whether it equals
 	// the input accepted so far
@@ -354,6 +363,7 @@ func runWriter(o wopts, input []byte, calls []wcall, sink *recSink, blocks *[]in
 		}
 		r.Sink, r.Calls = sink.snapshot()
 		r.St, _ = zw.VerifState()
+		r.Fails = sink.failed()
 		res = append(res, r)
 	}
 	return res, segs, ""
